@@ -269,7 +269,7 @@ def _show(act) -> List[Any]:
   return out
 
 
-def replay_behaviour(chk, m: Model, partial: bool, steps, hits: Dict[str, int], cfg: str) -> None:
+def replay_behaviour(chk, m: Model, partial: bool, steps, hits: Dict[str, int], cfg: str, mirror: bool = False) -> None:
   """Replays one TLC behaviour; reports violations through chk; truncates after a divergence."""
   st0 = steps[0].state
   c = m.make(st0['root'], partial)
@@ -301,6 +301,14 @@ def replay_behaviour(chk, m: Model, partial: bool, steps, hits: Dict[str, int], 
       for cl in sorted(set(clauses)):
         chk.violation(dict(base_sig, clause=cl), dict(detail, violated='Conforms', clause=cl))
       stop = True
+    elif st['out'] == 'any':
+      # don't-care outcome (MISSING written to an undeclared key): raising or not, nothing may be stored
+      if exc is not None and not isinstance(exc, REJECT):
+        chk.violation(dict(base_sig, clause='error_class', error=type(exc).__name__), dict(detail, violated='error class'))
+        stop = True
+      elif _norm(after) not in alts:
+        chk.violation(dict(base_sig, clause='rejected_write_stored'), dict(detail, violated='RejectedWriteNoStore'))
+        stop = True
     elif st['out'] == 'err':
       if exc is None:
         chk.violation(dict(base_sig, clause='rejected_write_accepted'), dict(detail, violated='RejectedWriteNoStore'))
@@ -315,7 +323,10 @@ def replay_behaviour(chk, m: Model, partial: bool, steps, hits: Dict[str, int], 
         hits['batch_prefix_differs'] = hits.get('batch_prefix_differs', 0) + 1
         stop = True        # an admissible prefix, but not the one the behaviour continues from
     else:
-      if exc is not None:
+      if exc is not None and mirror:
+        hits['mirror_step_rejected_by_code'] = hits.get('mirror_step_rejected_by_code', 0) + 1
+        stop = True
+      elif exc is not None:
         # the statement does not forbid a stricter implementation, but then the specification no longer
         # describes the code: machinery failure, not a violation
         hits['valid_write_rejected'] = hits.get('valid_write_rejected', 0) + 1
@@ -347,3 +358,28 @@ def replay_simulated(chk, kind: str, partial: bool, cfg: str, num: int, depth: i
     if len(b) >= 2:
       replay_behaviour(chk, m, partial, b, hits, cfg)
   return hits
+
+
+def model_check(chk, cfg: str, timeout: int = 1500, coverage: bool = False):
+  """Exhaustive TLC run of TypedTree with the invariants Conforms / AltsConform and the action property."""
+  r = tlc.run('TypedTree', cfg, name=f'c03-mc-{cfg[:-4]}', timeout=timeout, coverage=coverage)
+  chk.add_tlc(r)
+  if not r.ok:
+    raise tlc.TLCError(f'TypedTree {cfg}: {r.violated} violated in the model (intended semantics): '
+                       f'{[s["state"].get("act") for s in (r.error_trace or [])]}')
+  return r
+
+
+def mirror_search(chk, cfg: str, kind: str, partial: bool, hits: Dict[str, int], model: Optional[Model] = None):
+  """TLC searches the design *as coded* (Mirror = TRUE) for a Conforms violation; the counter-example is replayed
+  on the real code before it is believed."""
+  r = tlc.run('TypedTree', cfg, name=f'c03-mirror-{cfg[:-4]}', timeout=600, allow_violation=True)
+  chk.add_tlc(r)
+  if r.ok:
+    chk.notes['mirror'] = 'no violation in the coded design'
+    return r
+  steps = [tlc.Step(s['action'], [], s['state']) for s in (r.error_trace or [])]
+  chk.require(len(steps) >= 2 and all('act' in s.state for s in steps), 'mirror counter-example could not be parsed')
+  chk.notes['mirror'] = {'violated': r.violated, 'calls': [_show(list(s.state['act'])) for s in steps[1:]]}
+  replay_behaviour(chk, model or Model(kind), partial, steps, hits, cfg, mirror=True)
+  return r
